@@ -977,10 +977,36 @@ def step_case(kind, step):
     return case
 
 
-def run_step(kind, trainer, step):
+def _through_buffer(buffers, key, arr, refill):
+    """the array object the long-lived trainer was given in the previous step,
+    refilled in place with the new content (a caller's block buffer) - or the
+    new array, remembered for the next step"""
+    if not isinstance(arr, np.ndarray):
+        return arr
+    old = buffers.get(key)
+    if refill and old is not None and old.shape == arr.shape and old.dtype == arr.dtype:
+        old[...] = arr
+        return old
+    buffers[key] = arr
+    return arr
+
+
+def run_step(kind, trainer, step, buffers=None):
+    refill = bool(step.get('refill'))
     if kind in ('watson', 'bingham'):
-        return trainer.fit(**step_case(kind, step))
+        kw = step_case(kind, step)
+        if buffers is not None:
+            kw = {k: _through_buffer(buffers, k, v, refill) for k, v in kw.items()}
+        return trainer.fit(**kw)
     case = step_case(kind, step)
+    if buffers is not None:
+        case.y = _through_buffer(buffers, 'y', case.y, refill)
+        if case.emb is not None:
+            case.emb = _through_buffer(buffers, 'emb', case.emb, refill)
+        case.init = _through_buffer(buffers, 'init', case.init, refill)
+        if case.opts.get('saliency') is not None:
+            case.opts['saliency'] = _through_buffer(buffers, 'saliency',
+                                                    case.opts['saliency'], refill)
     return mm.fit(case, trainer=trainer)
 
 
@@ -993,6 +1019,7 @@ class History:
         self.trainer = make_trainer(kind, trainer_kwargs)
         self.dimension = None
         self.log = []
+        self.buffers = {}
 
     def apply(self, step):
         self.log.append(step)
@@ -1018,7 +1045,7 @@ class History:
         except Exception as e:  # noqa
             expected = ('raises', type(e).__name__)
         try:
-            got = canon(run_step(kind, self.trainer, step))
+            got = canon(run_step(kind, self.trainer, step, buffers=self.buffers))
         except Exception as e:  # noqa
             got = ('raises', type(e).__name__)
         if kind in CACHED_DIMENSION and self.dimension is None and \
@@ -1114,6 +1141,17 @@ def _machine_task(kind, seed_value, n_examples, tier):
                          ctype=ctype, F=F if kind not in mm.INTEGRATION else (F or 2),
                          aligner=aligner)
             self._step('fit', seed, D, K, extra, same_data=same)
+
+        @precondition(lambda self: self.h is not None and self.prev is not None)
+        @rule(seed=st.integers(0, 10 ** 6))
+        def refit_refilled_buffer(self, seed):
+            """the caller refills the arrays of the previous fit in place (a
+            block buffer) and fits again with the same objects"""
+            step = dict(self.prev, seed=seed, op='refit_refilled_buffer', refill=True)
+            out = self.h.apply(step)
+            if out == 'ok':
+                self.prev = step
+            lab(step['op'] if out == 'ok' else out)
 
         @precondition(lambda self: self.h is not None and kind in CACHED_DIMENSION
                       and self.h.dimension is not None)
